@@ -108,7 +108,7 @@ def teardown(ctx):
 
 def plan(tier):
     m = 1 if tier == 'quick' else 36
-    return [('dobs', 700 * m), ('dobs_int', 350 * m), ('pobs', 300 * m), ('pobs_int', 120 * m), ('pobs_lists', 60 * m), ('history', 160 * m), ('alias', 80 * m)]
+    return [('dobs', 700 * m), ('dobs_int', 350 * m), ('pobs', 300 * m), ('pobs_int', 120 * m), ('pobs_lists', 60 * m), ('history', 160 * m), ('alias', 100 * m), ('options', 160 * m), ('refuse', 90 * m)]
 
 
 # ------------------------------------------------------------------------------------------
@@ -203,6 +203,9 @@ def make_dobs_list(ctx, rng, nobs, relation, data, nmax, master=None, cvs=None, 
                     ctx.count('spectator_gradient_entries')
                 lin = sum(k * c for k, c in zip(cc, comps))
                 o = o + lin if (data == 'int' or rng.random() < 0.5) else o * comps[0] + lin
+        if data == 'real' and rng.random() < 0.08:
+            o = o - o.value              # degenerate value: central value exactly 0.0, fluctuations not
+            ctx.count('centered_observables')
         if data == 'real':
             # overall magnitude (applied last, so that fluctuations and central value scale together)
             u = rng.random()
@@ -277,7 +280,7 @@ def pick_mode(rng, fmt, names):
         modes = [None, 'int', 'str', 'int']
     m = modes[int(rng.integers(0, len(modes)))]
     if m == 'int':
-        return len(ens[int(rng.integers(0, len(ens)))]) if rng.random() < 0.8 else int(rng.integers(1, 4))
+        return len(ens[int(rng.integers(0, len(ens)))]) if rng.random() < 0.8 else int(rng.integers(0, 4))      # 0 is a valid position
     if m == 'str':
         return str(rng.choice(['r', 'r', 'r1']))
     return m
@@ -673,21 +676,189 @@ def run_alias(ctx, rng, idx, tmp):
     else:
         base = make_pobs_list(ctx, rng, 2, data, nmax)
     a, b = base
-    pattern = [[a, b, a], [a, a], [a, a, b, b], [b, a, b, a]][(idx // 6) % 4]
+    # members the library's own == cannot tell apart (numbers shifted by 1e-12 of the scale), and equal central values on other data
+    sc = abs(a.value) + max([float(np.max(np.abs(d))) for d in a.deltas.values() if len(d)] or [0.0])
+    if fmt == 'dobs':
+        t_val = a + 1e-12 * sc
+        scb = max([float(np.max(np.abs(d))) for d in b.deltas.values() if len(d)] or [0.0])
+        # equal central value on other data - only when the two live on comparable scales (a value that dwarfs the
+        # fluctuations by sixteen digits leaves nothing of them in any floating-point format)
+        t_mean = (b - b.value + a.value) if (sorted(b.names) == sorted(a.names) and sc > 0 and 1e-3 < scb / sc < 1e3) else 1.0 * a
+    else:
+        t_val = PE.Obs([a.deltas[n] + a.r_values[n] + 1e-12 * sc for n in a.names], list(a.names), idl=[list(a.idl[n]) for n in a.names])
+        t_mean = PE.Obs([b.deltas[n] + b.r_values[n] - b.value + a.value for n in a.names], list(a.names), idl=[list(a.idl[n]) for n in a.names])
+    pattern = [[a, b, a], [a, a], [a, a, b, b], [b, a, b, a], [a, t_val, a], [t_val, a, t_mean], [t_mean, t_val, b, a]][(idx // 6) % 7]
     mode = restoring_mode(fmt, pattern)
     gz = bool(rng.integers(0, 2))
     ctx.cell('alias', fmt, len(pattern), data)
     ctx.count('alias_cases')
-    opts = dict(format=fmt, alias=[('a' if o is a else 'b') for o in pattern], data=data, gz=gz)
+    opts = dict(format=fmt, alias=[('a' if o is a else 'b' if o is b else 'twin') for o in pattern], data=data, gz=gz)
     before = frozen_list(pattern)
     target = None if (fmt == 'dobs' and rng.random() < 0.4) else os.path.join(tmp, 'alias')
     r = write_read(fmt, pattern, target, gz, mode)
     judge_list(ctx, rng, r, pattern, mode, fmt, opts, opts, before=before)
 
 
+# ------------------------------------------------------------------------------------------
+# the documented keyword options travel with the file and come back through full_output=True
+# ------------------------------------------------------------------------------------------
+WORDS = ['pion', 'kappa 0.1350', 'run-7', 'plaquette', 'x', 'beta=3.40', 'Q_top', 'a1']
+T_SYMBOL_TAGS = 'dobs:tags-set-from-characters-of-the-symbol-string'
+
+
+def text_option(rng, allow_empty=True):
+    u = rng.random()
+    if u < 0.15 and allow_empty:
+        return ''
+    if u < 0.35:
+        return ' '.join(str(w) for w in rng.choice(WORDS, size=30))          # longer than 100 characters: written on lines of its own
+    return ' '.join(str(w) for w in rng.choice(WORDS, size=int(rng.integers(1, 4)), replace=False))
+
+
+def run_options(ctx, rng, idx, tmp):
+    fmt = ['dobs', 'pobs'][idx % 2]
+    nobs = 1 + (idx // 2) % 3
+    nmax = 20
+    if fmt == 'dobs':
+        master = rt_io.rand_layout(rng, str(rng.choice(['one', 'replicas', 'ensembles'])), 8, nmax, allow_bare=False, maxens=2)
+        obsl = make_dobs_list(ctx, rng, nobs, ['identical', 'different'][(idx // 6) % 2], 'real', nmax, master=master)
+    else:
+        obsl = make_pobs_list(ctx, rng, nobs, 'real', nmax, lay=rt_io.rand_layout(rng, str(rng.choice(['one', 'replicas'])), 8, nmax, allow_bare=False))
+    name = text_option(rng, allow_empty=False)
+    spec = text_option(rng)
+    origin = text_option(rng)
+    sym_kind = ['none', 'empty', 'words', 'letters'][(idx // 12) % 4]
+    symbol = {'none': None, 'empty': [], 'words': ['obs%d' % i for i in range(nobs)], 'letters': [chr(ord('p') + i) for i in range(nobs)]}[sym_kind]
+    kw = dict(spec=spec, origin=origin)
+    if symbol is not None:
+        kw['symbol'] = symbol
+    ens = sorted(set(n.split('|')[0] for o in obsl for n in o.names if n not in o.covobs))
+    gz = bool(rng.integers(0, 2))
+    exp_desc = {'spec': spec, 'origin': origin, 'name': name}
+    if fmt == 'dobs':
+        who = [None, 'a person', 'x'][int(rng.integers(0, 3))]
+        if who is not None:
+            kw['who'] = who
+        enstags = None
+        if rng.random() < 0.5:
+            enstags = {e: 'tag_' + e for e in ens}
+            kw['enstags'] = dict(enstags)
+        mode = 'r'          # replica parts start with r and no ensemble name contains one: names are restored whatever the enstag
+    else:
+        who = None
+        enstag = [None, '', 'E_' + ens[0]][int(rng.integers(0, 3))]
+        if enstag is not None:
+            kw['enstag'] = enstag
+        exp_desc['enstag'] = enstag if enstag else ens[0]
+        mode = len(ens[0])
+    for o in obsl:
+        o.tag = str(rng.choice(['own tag', 'None', 'x'])) if rng.random() < 0.5 else None
+    ctx.cell('options', fmt, nobs, sym_kind, 'gz' if gz else 'plain')
+    ctx.count('option_cases')
+    opts = dict(format=fmt, options=sorted(kw), symbol=sym_kind, gz=gz)
+    before = frozen_list(obsl)
+    kw_before = repr(sorted(kw.items()))
+    target = os.path.join(tmp, 'opt')
+    if fmt == 'dobs':
+        if rng.random() < 0.4:
+            r = DIO.import_dobs_string(DIO.create_dobs_string(obsl, name, **kw), full_output=True, separator_insertion=mode)
+        else:
+            DIO.write_dobs(obsl, target, name, gz=gz, **kw)
+            r = DIO.read_dobs(target, full_output=True, gz=gz, separator_insertion=mode)
+    else:
+        DIO.write_pobs(obsl, target, name, gz=gz, **kw)
+        r = DIO.read_pobs(target, full_output=True, gz=gz, separator_insertion=mode)
+    ctx.require(repr(sorted(kw.items())) == kw_before, 'argument-modified-by-writer:keyword-options', {'before': kw_before[:200], 'after': repr(sorted(kw.items()))[:200]})
+    if not ctx.require(isinstance(r, dict) and 'obsdata' in r and isinstance(r.get('description'), dict), fmt + ':full-output-form', {'type': type(r).__name__}):
+        return
+    # C12 speaks about the observables; what full_output returns about the options is telemetry (counted, not judged)
+    def tele(name, ok):
+        ctx.count('options:%s-%s' % (name, 'returned' if ok else 'not-returned-by-full-output'))
+    tele('program-version', str(r.get('program', '')).startswith('pyerrors') and r.get('version') == '1.0')
+    if fmt == 'dobs':
+        import getpass
+        tele('who', r.get('who') == (who if who is not None else getpass.getuser()))
+        tele('enstags', r.get('enstags') == {e: (enstags[e] if enstags else e) for e in ens})
+    got_desc = dict(r['description'])
+    got_symbol = got_desc.pop('symbol', None)
+    tele('description', got_desc == exp_desc)
+    if symbol:
+        exp_symbol = ' '.join(symbol) if fmt == 'dobs' else ' '.join(['cfg'] + symbol)
+        tele('symbol', got_symbol == exp_symbol)
+        # what IS judged: the imported observables must not pick up garbage - "tags are not written or recovered
+        # automatically", so a tag is absent or the observable's own symbol, never a character of the joined symbol string
+        rt_io.judged(ctx, T_SYMBOL_TAGS)
+        tags = [o.tag for o in r['obsdata']]
+        if any(t is not None and t != s_ for t, s_ in zip(tags, symbol)):
+            ctx.violation(T_SYMBOL_TAGS if fmt == 'dobs' else 'pobs:tags-after-import', {'tags': tags, 'symbol': symbol})
+    judge_list(ctx, rng, r['obsdata'], obsl, mode, fmt, opts, opts, before=before)
+
+
+# ------------------------------------------------------------------------------------------
+# requests the documentation says are refused
+# ------------------------------------------------------------------------------------------
+def run_refuse(ctx, rng, idx, tmp):
+    row = ['pobs-several-ensembles', 'pobs-other-ensemble', 'pobs-more-replicas', 'pobs-fewer-replicas', 'pobs-enstag-not-str', 'pobs-symbol-not-list',
+           'pobs-symbol-wrong-length', 'dobs-symbol-not-list', 'dobs-symbol-wrong-length', 'dobs-separator-not-str-or-int', 'pobs-separator-not-str-or-int',
+           'dobs-inconsistent-covariance'][idx % 12]
+    lay = rt_io.rand_layout(rng, 'replicas', 8, 16, allow_bare=False, ens_pool=['A', 'AB'])
+    e = sorted(lay)[0]
+    chains = lay[e]
+    a = rt_io.primary(PE, rng, chains, 'white')
+    other_e = 'AB' if e == 'A' else 'A'                                  # prefix-sharing ensemble names
+    on_other = rt_io.primary(PE, rng, {c.replace(e + '|', other_e + '|'): v for c, v in chains.items()}, 'white')
+    one_rep = {c: chains[c] for c in sorted(chains)[:1]}
+    ctx.cell('refuse', row)
+    about_observables = row in ('pobs-several-ensembles', 'pobs-other-ensemble', 'pobs-more-replicas', 'pobs-fewer-replicas', 'dobs-inconsistent-covariance')
+    if about_observables:
+        rt_io.judged(ctx, 'xml:invalid-request-accepted:' + row)
+    name = os.path.join(tmp, 'refuse')
+    try:
+        if row == 'pobs-several-ensembles':
+            DIO.write_pobs([a + on_other], name, 'n')
+        elif row == 'pobs-other-ensemble':
+            DIO.write_pobs([a, on_other][::int(rng.choice([1, -1]))], name, 'n')
+        elif row == 'pobs-more-replicas':
+            DIO.write_pobs([rt_io.primary(PE, rng, one_rep, 'white'), a], name, 'n')
+        elif row == 'pobs-fewer-replicas':
+            DIO.write_pobs([a, rt_io.primary(PE, rng, one_rep, 'white')], name, 'n')
+        elif row == 'pobs-enstag-not-str':
+            DIO.write_pobs([a], name, 'n', enstag=[5, 2.5, ['E']][int(rng.integers(0, 3))])
+        elif row == 'pobs-symbol-not-list':
+            DIO.write_pobs([a], name, 'n', symbol='s')
+        elif row == 'pobs-symbol-wrong-length':
+            DIO.write_pobs([a, 1.0 * a], name, 'n', symbol=['s'] if rng.random() < 0.5 else ['s', 't', 'u'])
+        elif row == 'dobs-symbol-not-list':
+            DIO.write_dobs([a], name, 'n', symbol='s')
+        elif row == 'dobs-symbol-wrong-length':
+            DIO.write_dobs([a, on_other], name, 'n', symbol=['s'] if rng.random() < 0.5 else ['s', 't', 'u'])
+        elif row == 'dobs-separator-not-str-or-int':
+            DIO.write_dobs([a], name, 'n')
+            DIO.read_dobs(name, separator_insertion=[1.5, [1], (2,)][int(rng.integers(0, 3))])
+        elif row == 'pobs-separator-not-str-or-int':
+            DIO.write_pobs([a], name, 'n')
+            DIO.read_pobs(name, separator_insertion=[1.5, [1], (2,)][int(rng.integers(0, 3))])
+        else:
+            c1 = PE.cov_Obs([1.0, 2.0], [[0.1, 0.01], [0.01, 0.2]], 'cv')
+            c2 = PE.cov_Obs([1.0, 2.0], [[0.1, 0.02], [0.02, 0.2]], 'cv')       # the same name for another matrix
+            DIO.write_dobs([a + c1[0], on_other + c2[1]], name, 'n')
+    except Exception:
+        ctx.count('invalid_requests_refused' if about_observables else 'options:invalid-option-value-refused')
+        return
+    if about_observables:
+        # a list the format cannot hold was written: the observables in the file are not the ones handed in
+        ctx.violation('xml:invalid-request-accepted:' + row, {'row': row})
+    else:
+        ctx.count('options:invalid-option-value-accepted')
+
+
 def run_case(ctx, kind, idx, rng):
     with tempfile.TemporaryDirectory(prefix='vmon_C12_', dir='/var/tmp') as tmp:
-        if kind == 'history':
+        if kind == 'options':
+            run_options(ctx, rng, idx, tmp)
+        elif kind == 'refuse':
+            run_refuse(ctx, rng, idx, tmp)
+        elif kind == 'history':
             run_history(ctx, rng, idx, tmp)
         elif kind == 'alias':
             run_alias(ctx, rng, idx, tmp)
